@@ -43,6 +43,11 @@ def wq(w):
 def edict(w):
     return {} if w is None else {"weight": float(Fr(w))}
 
+def opname(key):
+    """operator templates are keyed `name` or `name#k`: since fix D90 two DIFFERENT operator templates may carry the same
+    name in one circuit (never in one node); the part before `#` is the operator's name, which appears in variable paths"""
+    return key.split("#")[0]
+
 def build(case):
     """case -> CircuitTemplate (ONE OperatorTemplate object per operator name; per-node values as overrides)"""
     from pyrates import OperatorTemplate, NodeTemplate, CircuitTemplate
@@ -60,7 +65,7 @@ def build(case):
             else:
                 variables[name] = f"variable({v})"
         eqs = [(f"{lhs}' = " if de else f"{lhs} = ") + poly_str(p) for lhs, de, p in o["eqs"]]
-        ops[oname] = OperatorTemplate(name=oname, equations=eqs, variables=variables, path=None)
+        ops[oname] = OperatorTemplate(name=opname(oname), equations=eqs, variables=variables, path=None)
     def circ(name, c):
         if c["nodes"]:
             nodes = {}
@@ -215,13 +220,21 @@ def gen_ops(rng, n_ops, small=False):
         ops[onames[j]] = dict(vars=decl, eqs=eqs, out=out)
         outs.append(out)
     # the operators were built in dependency order; the dict keeps that order (nodes pick their own declaration order)
+    if n_ops >= 2 and rng.random() < 0.3:
+        # two DIFFERENT operator templates with the same name (used by different nodes; works since fix D90)
+        keys = list(ops)
+        i, j = rng.sample(range(n_ops), 2)
+        ops = {(keys[j] + "#2" if k == keys[i] else k): v for k, v in ops.items()}
     return ops
 
 def gen_tree(rng, ops, depth, n_nodes):
     onames = list(ops)
     def node(name):
         k = rng.randint(1, min(3, len(onames)))
-        chosen = rng.sample(onames, k)
+        chosen = []
+        for on in rng.sample(onames, k):
+            if opname(on) not in [opname(c) for c in chosen]:      # operator names are unique inside a node
+                chosen.append(on)
         nops = []
         for on in chosen:
             ov = {}
@@ -286,9 +299,9 @@ def gen_case(rng, mode="valid"):
             for on, _ in nops:
                 for vn, kind, _ in ops[on]["vars"]:
                     if kind in ("state", "alg"):
-                        srcs.append((path, on, vn))
+                        srcs.append((path, opname(on), vn))
                     elif kind == "input":
-                        tgts.append((path, on, vn))
+                        tgts.append((path, opname(on), vn))
         if not tgts or not srcs:
             continue
         n_e = rng.choice([0, 1, 2, 2, 3, 3, 4, 5, 6, 8])
@@ -362,15 +375,19 @@ def resolved(case):
         l = []
         for on, ov in nops:
             o = case["ops"][on]
-            l.append((on, {vn: (kind, Fr(ov.get(vn, val))) for vn, kind, val in o["vars"]}, o["eqs"], o["out"]))
+            l.append((opname(on), {vn: (kind, Fr(ov.get(vn, val))) for vn, kind, val in o["vars"]}, o["eqs"], o["out"]))
         res[path] = l
     return res
 
 def kind_of(case, vid):
     path, on, vn = vid
-    for vn2, kind, _ in case["ops"][on]["vars"]:
-        if vn2 == vn:
-            return kind
+    for p, nops in tree_nodes(case["tree"]):
+        if p == path:
+            for key, _ in nops:
+                if opname(key) == on:
+                    for vn2, kind, _ in case["ops"][key]["vars"]:
+                        if vn2 == vn:
+                            return kind
     return None
 
 def split_vid(s):
@@ -425,7 +442,7 @@ def py_guard_labels(case):
             vs = case["ops"][on]["vars"]
             for v, kind, _ in vs:
                 if kind == "input":
-                    k = outs.count(v) + (1 if (path, on, v) in targets else 0)
+                    k = outs.count(v) + (1 if (path, opname(on), v) in targets else 0)
                     if k >= 2 and any(is_vk_of(v, v2) for v2, _, _ in vs):
                         return False
     return True
@@ -607,14 +624,14 @@ def coq_case(idx, case, out):
     lines, opref = [], {}
     for j, (on, o) in enumerate(case["ops"].items()):
         opref[on] = f"c{idx}_op{j}"
-        lines.append(f"Definition c{idx}_op{j} : oper := {c_oper(on, o)}.")
+        lines.append(f"Definition c{idx}_op{j} : oper := {c_oper(opname(on), o)}.")
     ok = isinstance(out, dict) and "outs" in out and all("err" not in o for o in out["outs"])
     if ok:
         user_vars = set()
         for path, nops in tree_nodes(case["tree"]):
             for on, _ in nops:
                 for v, k, _ in case["ops"][on]["vars"]:
-                    user_vars.add(f"{path}/{on}/{v}")
+                    user_vars.add(f"{path}/{opname(on)}/{v}")
         smap = clist([f"({c_vid(k)}, {cnat(p[0])})" for k, p in out["positions"].items()])
         vals = {k: v[0] for k, v in out["declared"].items() if k in user_vars and len(v) == 1}
         for k, p in out["positions"].items():
@@ -671,17 +688,7 @@ def model_outputs(ctx, case, out, tag):
 
 # ---------------------------------------------------------------------------------------------- verdict helpers
 GUARDS = {"g_names": "guard_names", "g_labels": "guard_labels"}
-PROPOSED = {   # findings this check proposes for known_findings.json (used for attribution only while not yet listed there)
-    "guard_names": dict(id="C01-D22", witness="corpus/C01/d22_witness.json",
-                        text="a name generated for the in_edge operator (source variable, target variable, `weight`, `<v>_in<i>`, "
-                             "`weight_in<i>`) coincides with another one, e.g. source and target variable have the same name or a variable "
-                             "is called `weight`: NameError / UnboundLocalError at the first call, or a silently wrong value"),
-    "guard_labels": dict(id="C01-D22b", witness="corpus/C01/labels_witness.json",
-                         text="an operator input `a` with >= 2 sources (same-node producer(s) and/or the in_edge operator) in an operator that "
-                              "also owns a variable named like a generated label `a_v<k>`: _collect_ops rewrites `a` textually to (a_v1+a_v2), "
-                              "label and user variable become one identifier (silently wrong value and a state variable missing from the "
-                              "layout, or NameError).  Narrowed after fix D80: inputs with < 2 sources are no longer affected"),
-}
+PROPOSED = {}   # no open finding: D3 (D59), the parser class (D80), D22 (D83) and D22b (D84) are repaired; their witnesses are regression cases
 
 import functools
 
@@ -771,7 +778,7 @@ def shrink(ctx, case, budget=8):
             prune(d["tree"], "")
             if not tree_nodes(d["tree"]):
                 continue
-            live = {f"{pp}/{on}/{v}" for pp, nops in tree_nodes(d["tree"]) for on, _ in nops for v, _, _ in d["ops"][on]["vars"]}
+            live = {f"{pp}/{opname(on)}/{v}" for pp, nops in tree_nodes(d["tree"]) for on, _ in nops for v, _, _ in d["ops"][on]["vars"]}
             for pt in d["points"]:
                 pt["state"] = {k: v for k, v in pt["state"].items() if k in live}
                 pt["params"] = {k: v for k, v in pt["params"].items() if k in live}
@@ -854,6 +861,7 @@ def check(ctx):
                 edges=sum(len(tree_edges(c["tree"])) for c in cases),
                 with_parallel_edges=sum(1 for c in cases if len({(s_, t_) for s_, t_, _ in tree_edges(c["tree"])}) < len(tree_edges(c["tree"]))),
                 weightless_edges=sum(1 for c in cases for _, _, w in tree_edges(c["tree"]) if w is None),
+                same_name_different_operators=sum(1 for c in cases if any("#" in k for k in c["ops"])),
                 with_self_loop=sum(1 for c in cases if any(split_vid(s_)[0] == split_vid(t_)[0] for s_, t_, _ in tree_edges(c["tree"]))),
                 with_unconnected_input=sum(1 for c in cases if any(kind_of(c, split_vid(v)) == "input" for v in param_vars(c))),
                 state_dim_max=max((o["ny"] for o in outs if isinstance(o, dict) and "ny" in o), default=0))
